@@ -12,6 +12,7 @@ import (
 	"path/filepath"
 	"runtime/debug"
 	"sort"
+	"strconv"
 	"strings"
 	"time"
 )
@@ -190,8 +191,20 @@ func (c *Ctx) Violations() int64 { return c.res.ViolCount }
 // shard. Each case gets its own PRNG determined by (seed, property, group, i).
 // A panic inside fn is recorded as a violation of class "panic:<group>".
 func (c *Ctx) Each(group string, n int64, fn func(i int64, r *Rand)) {
-	if FakeTime {
-		return // workers on the virtual clock run only the EachFT groups
+	if FakeTime || Int32 {
+		return // workers on the virtual clock run only the EachFT groups, the 32-bit worker only the Each32 groups
+	}
+	c.each(group, n, fn)
+}
+
+// Int32 is true in the worker binary built for a platform where int has 32 bits (GOARCH=386).
+const Int32 = strconv.IntSize == 32
+
+// Each32 is Each for case groups that run in the worker built for a 32-bit platform: lengths and counts of 2^31 and
+// more that come from the data become negative or wrap when they are converted to int there.
+func (c *Ctx) Each32(group string, n int64, fn func(i int64, r *Rand)) {
+	if !Int32 {
+		return
 	}
 	c.each(group, n, fn)
 }
@@ -199,7 +212,7 @@ func (c *Ctx) Each(group string, n int64, fn func(i int64, r *Rand)) {
 // EachFT is Each for case groups that need the virtual process clock (long real pauses between
 // calls, playback of hour-long files): they run only in the workers built with the faketime tag.
 func (c *Ctx) EachFT(group string, n int64, fn func(i int64, r *Rand)) {
-	if !FakeTime {
+	if !FakeTime || Int32 {
 		return
 	}
 	c.each(group, n, fn)
@@ -228,7 +241,7 @@ func (c *Ctx) each(group string, n int64, fn func(i int64, r *Rand)) {
 // EachBlock is like Each but shards by contiguous blocks (for enumerations where
 // the per-case cost is tiny and the index arithmetic should stay cheap).
 func (c *Ctx) EachBlock(group string, n int64, blk int64, fn func(lo, hi int64)) {
-	if FakeTime {
+	if FakeTime || Int32 {
 		return
 	}
 	nb := (n + blk - 1) / blk
